@@ -6,14 +6,19 @@ import runner
 from props.parts import _tracksv1_gen as G
 
 NS = "EngineModel.Properties.C06V1."
-LEAN_MODULES = ["Properties.C06V1"]
+LEAN_MODULES = ["Properties.C06V1", "Properties.C06V1Accept"]
 THEOREMS = [NS + t for t in [
     "v1_C06_setter_spec", "v1_C06_get_set", "v1_C06_reject", "v1_C06_never_ub", "v1_C06_frame", "v1_C06_frame_derived",
     "v1_C06_getter_snapshot", "v1_C06_slot_getters_safe", "v1_C06_inv_write", "v1_C06_inv_set", "v1_C06_inv_db",
     "v1_C06_other_track", "v1_C06_db_get_set", "v1_C06_history", "v1_C06_history_getters",
     "v1_C06_history_other_tracks", "v1_C06_absent_track", "v1_C06_remove_track", "v1_C06_table_ok",
     "v1_C06_unique_path", "v1_C06_spec_get_put",
-    "v1_C06_spec_frame"]]
+    "v1_C06_spec_frame",
+    # acceptance side and the headline clause (Properties/C06V1Accept.lean)
+    "v1_C06_accepts_row", "v1_C06_accepts", "v1_C06_refused_throws", "v1_C06_accepts_spec", "v1_C06_clean_db",
+    "v1_C06_history_no_ub", "v1_C06_history_decided", "v1_C06_abs_is_snapshot", "v1_C06_value_last_set",
+    "v1_C06_value_last_set_spec", "v1_C06_setter_stricter_counterexample", "v1_C06_normField_normFields",
+    "v1_C06_accepted_iff_fields", "v1_C06_waveform_entry_points_counterexample"]]
 ASSUMPTIONS = [
     "1.x: setters are modelled on the rows of one track (every statement they issue has WHERE id = ?); the only "
     "cross-track coupling is UNIQUE(path) from 1.11.1 on, which is part of the database-level step",
@@ -21,8 +26,13 @@ ASSUMPTIONS = [
     "modelled by their net effect; failure between their statements is C14's subject, not C06's",
     "1.x: NaN is outside the quantifier (Spec.finiteArg; matters for set_bpm only: SQLite stores a NaN REAL as NULL); "
     "std::ceil enters only through the explicit hypothesis CeilInRange of v1_C06_never_ub",
-    "1.x: only the direction `setter returned normally => Spec accepts and the lens holds` is proved; the setters are "
-    "stricter than the snapshot path (offset -1.0 slots, tracks without PerformanceData row) and throw there",
+    "1.x: acceptance (v1_C06_accepts, v1_C06_history_decided, v1_C06_value_last_set_spec) is proved on DbClean databases "
+    "(what create_track / update build from NaN-free snapshots and every setter keeps: v1_C06_clean_db) under the "
+    "explicit hypothesis FloatLaw of the opaque double arithmetic (ceil keeps |x| < 2^63 inside int64; int -> double is "
+    "never NaN and zero only for zero; u64/1024 is never NaN); the hardware instance is sampled against the law on every "
+    "run (v1spec.floatlaw, and the driver re-checks Clean / accepts-vs-outcome on every written row)",
+    "1.x: the setters are stricter than the setter Spec (offset -1.0 / NaN slots, tracks without PerformanceData row, "
+    "NaN loudness / main cue / sample rate): v1_C06_setter_stricter_counterexample; they throw and write nothing",
 ]
 MANIFEST_TEXT = (
     "1.x: 22 theorems (Properties/C06V1.lean) over the statement-level Lean model of the 26 getters / setters of "
@@ -101,6 +111,46 @@ def obs_lines(extra_slots):
         for (kind, i) in extra_slots:
             out.append(("get %s %s %d" % (t, kind, i), (t, "%s %d" % (kind, i))))
         out.append(("snap %s" % t, (t, "snap")))
+    return out
+
+
+ONE_ENTRY = bytes([1, 2, 3, 4, 5, 6])
+
+
+def witness_scripts(schemas):
+    """Fixed histories replaying the registered witnesses on the real library: (W1) set_waveform on a track without
+    sample count is accepted and read back although the snapshot path rejects such a snapshot
+    (v1_C06_waveform_entry_points_counterexample); (W2) a cue / loop with the reserved offset -1.0, which the snapshot
+    path stores as an empty slot, is refused by the slot and list setters (v1_C06_setter_stricter_counterexample);
+    (W3) value last set across a long tail of other calls and failing calls."""
+    slots = [("hot_cue_at", 0), ("hot_cue_at", 7), ("loop_at", 0), ("loop_at", 7)]
+    out = []
+    for sch in schemas:
+        lines, meta = ["#mode tracksv1", "create %s mem" % sch], [None, None]
+        full = G.minimal(b"c/full.mp3")
+        full.update(sample_count=8000000, sample_rate=G.dbits(44100.0), title=b"T", rating=40,
+                    hot_cues=[{"label": b"a", "off": G.dbits(1000.0), "color": "255 1 2 3"}])
+        for t, x in zip(TRACKS, [G.minimal(b"a/min.mp3"), G.minimal(b"b/min.mp3"), full]):
+            lines.append("mktrack %s %s" % (t, G.snap_txt(x))); meta.append(("mk", t))
+        for (l, m) in obs_lines(slots):
+            lines.append(l); meta.append(("obs", 0) + m)
+        calls = [
+            ("a", "waveform", G.hexs(ONE_ENTRY)),                                           # W1
+            ("c", "hot_cue_at", "0 some 61 %s 0 0 0 0" % G.NEG_ONE),                        # W2: refused
+            ("c", "hot_cues", "1 some 61 %s 0 0 0 0" % G.NEG_ONE),                          # W2: refused
+            ("c", "loop_at", "0 some 61 %s %s 0 0 0 0" % (G.NEG_ONE, G.dbits(5.0))),       # W2: refused
+            ("c", "rating", "250"),                                                         # W3: last set = 100
+            ("c", "hot_cue_at", "7 some 62 %s 9 8 7 6" % G.dbits(2000.0)),
+            ("c", "title", "s41"), ("b", "rating", "7"), ("c", "hot_cue_at", "9 none"),     # other calls, one failing
+            ("c", "beatgrid", "1 0 %s" % G.dbits(0.0)),                                     # failing (one marker)
+            ("c", "hot_cue_at", "0 none"), ("c", "sample_rate", G.dbits(48000.0)), ("c", "year", "1999"),
+        ]
+        for k, (t, f, v) in enumerate(calls, 1):
+            lines.append("set %s %s %s" % (t, f, v)); meta.append(("set", k, t, f, v))
+            for (l, m) in obs_lines(slots):
+                lines.append(l); meta.append(("obs", k) + m)
+        lines.append("v1.reupdate a"); meta.append(("aux", "reupdate-after-set-waveform"))
+        out.append((sch, lines, meta))
     return out
 
 
@@ -231,7 +281,7 @@ def canon(l):
 def tie(ctx):
     rng = random.Random(ctx.seed * 6151 + 606)
     schemas = G.QUICK_SCHEMAS if ctx.tier == "quick" else G.SCHEMAS
-    scripts = build(rng, ctx.tier, schemas)
+    scripts = build(rng, ctx.tier, schemas) + witness_scripts(schemas)
     hres, retried = G.run_harness_robust(runner, [s[1] for s in scripts], watchdog=30)
     mres = runner.run_model([s[1] for s in scripts])
     spec_lines = []
@@ -241,6 +291,25 @@ def tie(ctx):
                 spec_lines.append("v1spec.normfield %s %s" % (m[3], m[4]))
     sout = [o for outs in runner.run_model(runner.shard(spec_lines, NCPU)) for o in outs]
     sp = iter(sout)
+    # the value / row part of the acceptance predicate (Spec.callAccepted), for both values of the is-analysed flag
+    acc_lines = []
+    law_lines = set()
+    for (sch, lines, meta) in scripts:
+        for m in meta:
+            if m and m[0] == "set":
+                acc_lines.append("v1spec.accepts 0 %s %s" % (m[3], m[4]))
+                acc_lines.append("v1spec.accepts 1 %s %s" % (m[3], m[4]))
+                if m[3] == "bpm" and m[4] != "none":
+                    law_lines.add("v1spec.floatlaw %s %d" % (m[4], rng.randrange(2 ** 64)))
+                if m[3] == "sample_count" and m[4] != "none":
+                    law_lines.add("v1spec.floatlaw %s %s" % (G.dbits(float(rng.randrange(10 ** 6)) + 0.5), m[4]))
+    for b in list(G.D_CLASSES.values()) + [G.NAN, G.dbits(9223372036854774784.0), G.dbits(-9223372036854774784.0)]:
+        for n in (0, 1, 1023, 1024, 2 ** 53 + 1, 2 ** 63, 2 ** 64 - 1):
+            law_lines.add("v1spec.floatlaw %s %d" % (b, n))
+    law_lines = sorted(law_lines)
+    aout = [o for outs in runner.run_model(runner.shard(acc_lines, NCPU)) for o in outs]
+    ap = iter(aout)
+    lout = [o for outs in runner.run_model(runner.shard(law_lines, NCPU)) for o in outs]
 
     divergences, violations = [], []
     hist = {"steps": 0, "set_ok": 0, "set_throw": {}, "spec_reject": 0, "setter_stricter_than_spec": {},
@@ -249,6 +318,13 @@ def tie(ctx):
     distinct = set()
     evals = 0
     put_lines, put_meta = [], []
+    hist["float_law_samples"] = len(law_lines)
+    hist["acceptance_predicate_checks"] = 0
+    hist["last_set_checks"] = 0
+    hist["last_set_survived_steps_max"] = 0
+    for l, o in zip(law_lines, lout):
+        if o != "ok 1":
+            divergences.append({"input": l, "impl": "hardware doubles of the model driver", "model": "FloatLaw violated: " + o})
     for (sch, lines, meta), (hout, hrep), mout in zip(scripts, hres, mres):
         for i, l in enumerate(lines):
             evals += 1
@@ -282,6 +358,10 @@ def tie(ctx):
         removed_at = {}
         for k, (_, t, _) in sorted(rms.items()):
             removed_at.setdefault(t, k)
+        noperf = {m[1] for m in meta if m and m[0] == "rmperf"}
+        tainted = {m[1] for i, m in enumerate(meta) if m and m[0] == "mk" and G.NAN in lines[i]}
+        unique_path = G.SCHEMAS.index(sch) >= G.UNIQUE_PATH_FROM
+        specs_by_k = {}
         for k, (i, t, res) in rms.items():
             # remove_track: the track is gone, every other track is observed exactly as before
             hist["removals"] = hist.get("removals", 0) + 1
@@ -307,7 +387,25 @@ def tie(ctx):
         for k in sorted(sets):
             i, t, f, v, res = sets[k]
             spec = next(sp)
+            acc = {"0": next(ap), "1": next(ap)}
+            specs_by_k[k] = (spec, G.NAN in v)
             hist["steps"] += 1
+            # the acceptance predicate (Spec.callAccepted of v1_C06_history_decided) judged on the real library's own
+            # answers: the track is valid, the guard of the setter holds, no other track holds the path
+            if t not in tainted and not (res.startswith("skipped") or res.startswith("missing") or res.startswith("ub")):
+                bef = obs.get(k - 1, {})
+                if (t, "valid") in bef:
+                    valid = bef[(t, "valid")] == "ok 1"
+                    clash = (f == "relative_path" and unique_path and
+                             any(tt != t and bef.get((tt, "valid")) == "ok 1" and
+                                 bef.get((tt, "relative_path")) == "ok " + v for tt in TRACKS))
+                    want_ok = valid and acc["0" if t in noperf else "1"] == "ok 1" and not clash
+                    hist["acceptance_predicate_checks"] += 1
+                    if want_ok != (res == "ok"):
+                        divergences.append({"input": "%s | line %d | %s" % (sch, i, lines[i][:300]), "impl": res[:200],
+                                            "model": "acceptance predicate (Spec.callAccepted): %s [valid=%s guard=%s clash=%s]"
+                                                     % ("ok" if want_ok else "throw", valid,
+                                                        acc["0" if t in noperf else "1"], clash)})
             if t in removed_at and removed_at[t] < k:
                 # handle of a removed track: the call must throw (and, checked below like any other call,
                 # leave every other track alone)
@@ -370,6 +468,49 @@ def tie(ctx):
                         viol(k, "setter %s changed the value of %s on %s" % (f, g, sch),
                              ["get %s %s" % (tt, g), "before: " + before[(tt, g)][:300], "after:  " + val[:300]])
                         break
+                elif res.startswith("throw"):
+                    # a call that threw has set nothing: every getter (its own included) and the snapshot of the
+                    # track still answer what they answered before
+                    hist["threw_unchanged_checks"] = hist.get("threw_unchanged_checks", 0) + 1
+                    if before[(tt, g)] != val:
+                        viol(k, "setter %s threw (%s) but changed %s of its track on %s"
+                             % (f, res.split()[1] if len(res.split()) > 1 else "?", g, sch),
+                             ["get/snap %s %s" % (tt, g), "before: " + before[(tt, g)][:300], "after:  " + val[:300]])
+                        break
+        # "each getter returns the value last set for its field" over the whole history (v1_C06_value_last_set):
+        # the normalised value of the last accepted call on (track, field) must be what the getter answers after
+        # EVERY later step, until an accepted call on the same or an overlapping field of that track (or its removal)
+        last = {}
+        for k in sorted(set(sets) | set(rms)):
+            line_i = sets[k][0] if k in sets else rms[k][0]
+            if k in rms and not lines[rms[k][0]].startswith("update "):
+                for key in [key for key in last if key[0] == rms[k][1]]:
+                    del last[key]
+            if k in sets and k in specs_by_k:
+                _, t, f, v, res = sets[k]
+                fkey = f if f not in ("hot_cue_at", "loop_at") else "%s %s" % (f, v.split()[0])
+                if res == "ok":
+                    for key in [key for key in last if key[0] == t and overlapping(fkey, key[1])]:
+                        del last[key]
+                    spec, nan = specs_by_k[k]
+                    if spec.startswith("ok ") and spec != "ok reject" and not nan:
+                        last[(t, fkey)] = (spec, k)
+            o = obs.get(k, {})
+            for (t, g), (want, k0) in list(last.items()):
+                got = o.get((t, g))
+                if got is None or k0 == k:
+                    continue
+                hist["last_set_checks"] += 1
+                hist["last_set_survived_steps_max"] = max(hist["last_set_survived_steps_max"], k - k0)
+                if got != want:
+                    body = [l for l, m in zip(lines[:line_i + 1], meta[:line_i + 1]) if not (m and m[0] in ("obs", "rows"))]
+                    violations.append({"tag": "oracle", "signature": None,
+                                       "header": {"kind": "history", "part": "C06_v1",
+                                                  "what": "getter %s no longer returns the value last set for its field "
+                                                          "(set at step %d, lost at step %d) on %s" % (g, k0, k, sch)},
+                                       "body": body + ["note: get %s %s" % (t, g), "note: want: " + want[:400],
+                                                       "note: got:  " + got[:400]]})
+                    del last[(t, g)]
         # getter = snapshot field after every step
         for k, o in obs.items():
             for t in TRACKS:
